@@ -1,5 +1,5 @@
 """EXT_RESTCALL (specification growth, DESIGN 5.4/5.6; not a listed property): interceptor ordering and HTTP error mapping of
-the emitted REST transport.  spec: spec/RestCall.tla (6 invariants, liveness, 3 mutants); all 48 cases replayed."""
+the emitted REST transport.  spec: spec/RestCall.tla (9 invariants, liveness, 7 mutants) incl. the data flow through the hooks (the request the pre-hook returns is the one sent; post's result reaches post_with_metadata together with the reply headers; its result reaches the caller); all 192 cases replayed."""
 import os
 
 from .. import callrun, core, gen, pipeline, tlc
@@ -8,7 +8,7 @@ from .. import callrun, core, gen, pipeline, tlc
 def main(chk, args):
     r = tlc.run('RestCall', 'RestCall.cfg', deadlock=False)
     chk.add_tlc(r, 'RestCall model check')
-    for m in ('ignore_pre_result', 'swallow_error', 'post_order'):
+    for m in ('ignore_pre_result', 'swallow_error', 'post_order', 'ignore_pre_request', 'drop_post_result', 'drop_postm_result', 'no_headers'):
         rm = tlc.run('RestCall', open(os.path.join(tlc.SPEC, 'RestCall.cfg')).read().replace('"none"', f'"{m}"'), deadlock=False)
         if rm.ok:
             raise core.MachineryError(f'RestCall mutant {m} not rejected')
@@ -22,17 +22,17 @@ def main(chk, args):
         for fdp in req.proto_file:
             if fdp.name.startswith('other/'):
                 pipeline.write_pb2(fdp, root)
-        ok, out, err = gen.run_driver('harness.drivers.restcall', root, dict(module=callrun.MODULE, cases=[dict(i=i, **{k: c[k] for k in ('kind', 'status', 'preAddsMd')}) for i, c in enumerate(cases)]))
+        ok, out, err = gen.run_driver('harness.drivers.restcall', root, dict(module=callrun.MODULE, cases=[dict(i=i, **{k: c[k] for k in ('kind', 'status', 'preAddsMd', 'preEdits', 'postEdits', 'postmEdits')}) for i, c in enumerate(cases)]))
         if not ok:
             raise core.MachineryError('restcall driver failed:\n' + err)
     for o in out['obs']:
         c = cases[o['i']]; e = c['expect']
-        k = f"{c['kind']}/{c['status']}/pre_md={c['preAddsMd']}"
+        k = f"{c['kind']}/{c['status']}/pre_md={c['preAddsMd']}/edits={'pre ' * c['preEdits']}{'post ' * c['postEdits']}{'postm' * c['postmEdits']}"
         chk.case(k, nontrivial=True)
-        diffs = [f'{f}: observed {o[f]!r}, predicted {e[f]!r}' for f in ('hooks', 'sent', 'sentMd', 'outcome') if o[f] != e[f]]
+        diffs = [f'{f}: observed {o[f]!r}, predicted {e[f]!r}' for f in ('hooks', 'sent', 'sentMd', 'outcome', 'sentReq', 'postmSaw', 'postmHdr', 'got') if o[f] != e[f]]
         if diffs:
             chk.violation(k, '; '.join(diffs), dict(case=c, obs=o))
-    chk.rule = 'method kind {unary, void, server streaming} x HTTP status (200 and 7 error codes) x interceptor adds metadata or not: all 48 cases'
+    chk.rule = 'method kind {unary, void, server streaming} x HTTP status (200 and 7 error codes) x interceptor adds metadata or not x pre-hook replaces the request or not x (unary) post / post_with_metadata replace the response or not: all 192 cases'
     chk.sample(dict(case=cases[0]))
 
 
